@@ -337,6 +337,35 @@ fn check_config(cfg: &Cfg, p: &mut Partial, tier: Tier) {
         if explore_from(&mut s, cfg, &cfg.x0, &cfg.z0, p, "z0-probe", Some(&probe), Some(&expected)).is_none() {
             return;
         }
+        // (3b; round 13, after C01k) the density in the balance equation must be the *target's*:
+        // the energy attached to every trajectory state is recomputed from its own position
+        // (the model's log density) and velocity (1/2 |v|^2 in plain scalar arithmetic); the
+        // log-determinant is the same for all states of one trajectory and cancels
+        {
+            let h_ref = |st: &crate::common::rnuts::St| -> f64 {
+                let mut g = vec![0.0; st.x.len()];
+                let lp = cfg.target.logp(&st.x, &mut g);
+                0.5 * st.v.iter().map(|a| a * a).sum::<f64>() - lp
+            };
+            let s0 = &fwd.states[&0];
+            let h0 = h_ref(s0);
+            for (i, st) in &fwd.states {
+                if st.diverged || !st.energy.is_finite() {
+                    continue;
+                }
+                let d_impl = st.energy - s0.energy;
+                let d_ref = h_ref(st) - h0;
+                p.count("state_energies_recomputed_from_position_and_velocity", 1);
+                if !((d_impl - d_ref).abs() <= 1e-8 * (1.0 + h0.abs().max(d_ref.abs()))) {
+                    p.violation(
+                        format!("C01/energy-is-not-the-hamiltonian-of-the-target/{}", cfg.name),
+                        format!("state {i}: energy difference to the start {d_impl:e}, but -logp + |v|^2/2 differs by {d_ref:e}"),
+                        json!({"config": cfg.name, "index": i}),
+                    );
+                    return;
+                }
+            }
+        }
         // (4) detailed balance against every reachable z'
         let e0 = fwd.states[&0].energy;
         for (&i, &p_fwd) in &fwd.row {
@@ -448,6 +477,14 @@ pub fn run(tier: Tier, _replay: Option<String>) -> i32 {
             Target::DiagNormal { mu: (0..17).map(|i| 0.1 * i as f64 - 0.8).collect(), sigma: (0..17).map(|i| 0.5 + 0.15 * i as f64).collect() },
             vec![(0..17).map(|i| 0.3 * ((i * 7 % 5) as f64) - 0.6).collect(), (0..17).map(|i| 0.9 - 0.11 * i as f64).collect()],
             vec![(0..17).map(|i| 0.8 - 0.1 * i as f64).collect(), (0..17).map(|i| 0.25 * ((i * 3 % 7) as f64) - 0.7).collect()],
+        ),
+        // (round 13, after C01k) two rounds of the 4x-unrolled SIMD bodies plus a tail: an
+        // accumulator that is overwritten instead of accumulated only shows from length 32 on
+        (
+            "aniso33",
+            Target::DiagNormal { mu: (0..33).map(|i| 0.05 * i as f64 - 0.83).collect(), sigma: (0..33).map(|i| 0.5 + 0.07 * i as f64).collect() },
+            vec![(0..33).map(|i| 0.3 * ((i * 7 % 5) as f64) - 0.6).collect(), (0..33).map(|i| 0.9 - 0.055 * i as f64).collect()],
+            vec![(0..33).map(|i| 0.8 - 0.05 * i as f64).collect(), (0..33).map(|i| 0.25 * ((i * 3 % 7) as f64) - 0.7).collect()],
         ),
     ];
     for (tn, target, xs, zs) in &targets {
